@@ -75,13 +75,21 @@ ASSUMPTIONS = ["direction table (which way each estimator's rotation points, whi
                "noise-free measurements are exact to rounding: tolerances 1e-9 rad (singularity-free class) and 1e-7 rad (closed-form class)"]
 
 
+EXACT_DIPS = [0.0, -0.0, 80.0, -80.0, 45.0, -30.0, 60.0, 1e-9, -1e-9]
+
+
+def draw_dip(rng, i):
+    """magnetic dip in +-80 deg; every 5th case one of the exact values a caller would type (0 = magnetic equator included)"""
+    return float(EXACT_DIPS[(i // 5) % len(EXACT_DIPS)]) if i % 5 == 0 else float(rng.uniform(-80, 80))
+
+
 def generate(rng, tier, shard, nshards):
     n = gens.budget(600, tier, nshards)
     for i in range(n):
-        yield Case("all", "general", q=gens.general_position(rng), dip=float(rng.uniform(-80, 80)), sa=gens.logu(rng, 1e-2, 1e2),
+        yield Case("all", "general", q=gens.general_position(rng), dip=draw_dip(rng, i), sa=gens.logu(rng, 1e-2, 1e2),
                    sm=gens.logu(rng, 1e-2, 1e3), seed=int(rng.integers(2**31)))
     for i in range(gens.budget(240, tier, nshards)):
-        yield Case("free", "generic", q=gens.unit(rng), dip=float(rng.uniform(-80, 80)), sa=gens.logu(rng, 1e-2, 1e2),
+        yield Case("free", "generic", q=gens.unit(rng), dip=draw_dip(rng, i), sa=gens.logu(rng, 1e-2, 1e2),
                    sm=gens.logu(rng, 1e-2, 1e3), seed=int(rng.integers(2**31)))
     sp = gens.special_poses()
     reps = 1 if tier == "quick" else 3
@@ -91,7 +99,7 @@ def generate(rng, tier, shard, nshards):
             k += 1
             if k % nshards != shard:
                 continue
-            yield Case("free", "special:" + lab.split()[0], q=q, label=lab, dip=float(rng.uniform(-80, 80)) if rep else 55.0,
+            yield Case("free", "special:" + lab.split()[0], q=q, label=lab, dip=draw_dip(rng, k) if rep else 55.0,
                        sa=2.5 if not rep else gens.logu(rng, 1e-2, 1e2), sm=31.0 if not rep else gens.logu(rng, 1e-2, 1e3), seed=int(rng.integers(2**31)))
 
 
@@ -214,12 +222,35 @@ def specs(dip_deg, seed, q_true=None, sgn=1.0):
     return out
 
 
+def check_requested_dip(ctx, dip):
+    """The references an estimator holds are the ones it was asked for: built for magnetic dip d (as float and, when d is a
+    whole number, as int) its magnetic reference is inclined |d| to the horizontal plane of its own gravity reference."""
+    import ahrs
+    F = ahrs.filters
+    forms_ = [("float", float(dip))] + ([("int", int(dip))] if float(dip) == int(dip) else [])
+    for lab, d in forms_:
+        for name, route, mk, refs in (("Davenport", "Davenport", lambda: F.Davenport(magnetic_dip=d), lambda f: (f.g_q, f.m_q)),
+                                      ("QUEST", "QUEST", lambda: F.QUEST(magnetic_dip=d), lambda f: (f.g_q, f.m_q)),
+                                      ("FLAE", "FLAE/eig", lambda: F.FLAE(magnetic_dip=d), lambda f: (f.ref[0], f.ref[1])),
+                                      ("EKF", "TRIAD/rotmat/NED", None, None)):
+            if mk is None:
+                continue
+            out = call(lambda: refs(mk()))
+            if not ctx.returned(out, clause="no-exception[constructor, dip as %s]" % lab, route=route):
+                continue
+            g, m = (np.array(x, float) for x in out.value)
+            inc = np.degrees(np.arcsin(np.clip(m @ g / (np.linalg.norm(m) * np.linalg.norm(g)), -1, 1)))
+            ctx.le("estimator built for magnetic dip d holds a magnetic reference inclined |d| to its horizontal plane", abs(abs(inc) - abs(float(dip))), 1e-9,
+                   {"estimator": name, "dip": d, "dip_given_as": lab, "m_ref": m, "inclination_deg": float(inc)}, route=route)
+
+
 def check(case, ctx):
     q, dip, sa, sm, seed = case.p["q"], case.p["dip"], case.p["sa"], case.p["sm"], int(case.p["seed"])
     Rt = rq.refR(q)
     sp_out = call(specs, dip, seed, q, 1.0 if seed % 2 else -1.0)
     if not ctx.returned(sp_out, clause="estimator construction", route="TRIAD/rotmat/NED"):
         return
+    check_requested_dip(ctx, dip)
     for name, (gref, mref, fn) in sp_out.value.items():
         cls, conv = TABLE[name]
         if case.route == "free" and cls != "free":
@@ -229,6 +260,8 @@ def check(case, ctx):
         if min(sep, np.pi - sep) < np.radians(10.0):
             ctx.note("own reference pair closer than 10 deg to collinear: skipped (" + name.split("/")[0] + ")")
             continue
+        # mechanism label for violations: reference pair exactly (or within 1e-5 deg of) orthogonal - the magnetic equator
+        ctx.region_override = "refs-orthogonal(|dip|<1e-5):" + case.region.split(":")[0] if abs(90.0 - np.degrees(sep)) < 1e-5 else None
         M = Rt if conv == "fwd" else Rt.T
         acc, mag = M @ gh * sa, M @ mh * sm
         out = call(fn, acc.copy(), mag.copy())
